@@ -320,10 +320,10 @@ PROPS = {
     ),
     "C18": dict(
         level="model_checking",
-        runs=[dict(harness="c18", variant="thr", shards=16, tag="explore", build=dict(extra_sources=["mc/sched.c"], extra_cflags=["-DC18_OWN_SCHED"])),
-              dict(harness="c18", variant="tsan", shards=16, tag="tsan-free-run")],
+        runs=[dict(harness="c18", variant="thr", shards=17, tag="explore", build=dict(extra_sources=["mc/sched.c"], extra_cflags=["-DC18_OWN_SCHED"])),
+              dict(harness="c18", variant="tsan", shards=17, tag="tsan-free-run")],
         deadline=dict(quick=400, thorough=3000),
-        rule="ENABLE_THREADING build; 16 harness configurations: (1) threads borrow main's reference (get;put / get;get;put;put), (2) one reference handed to each thread, main releases its own "
+        rule="ENABLE_THREADING build; 17 harness configurations: (1) threads borrow main's reference (get;put / get;get;put;put), (2) one reference handed to each thread, main releases its own "
              "without joining, (3) the same on an object owning a child with its own callback, (4) N threads racing on first use of the key hash (seed source returns -1 once, then distinct values), "
              "(5) threads on disjoint trees; every interleaving of the 2-3 real threads at shared-memory-access granularity with at most p preemptions (stateless DFS with prefix replay, one process "
              "per execution); oracle per schedule: destroyed exactly once, 'freed' reported exactly once, no access inside a freed block, equal hashes in all threads at all times, plus a "
@@ -370,7 +370,7 @@ _EXTRA = {
  "C15": "; the 'reset parser behaves like a new one' probes run in every explored state at every small limit D",
  "C16": "; each mode also combined with JSON_TOKENER_VALIDATE_UTF8 (6 modes); every case on four tokener histories (fresh; reset; abandoned partial text + reset; failed text + reset); 12 kinds of trailing bytes incl. comments",
  "C17": "; the reserved second argument of json_c_visit rotates over {0, JSON_C_VISIT_SECOND, 1, -1}; chains of 31..1000 containers (built through the API and parsed) with CONTINUE everywhere and STOP at two positions",
- "C18": "; two more configurations: the global string hash switched away and back after first use; a different per-thread double format in each thread on disjoint trees",
+ "C18": "; three more configurations: the global string hash switched away and back after first use; a different per-thread double format in each thread on disjoint trees; the random source answering the refused seed value three times in a row",
  "C19": "; start states with 0..65530 bytes already written (growth capped at 2.5x / 4x the start fill)",
  "C20": "; documents at the exact depth limit and limits 0, 1, 4, 40; flag sets with COLOR / NOZERO / NOSLASHESCAPE; json_object_to_file; multi-buffer documents to 70000 bytes; after every failure a message different from one planted before the call; open descriptors counted before the table is reset",
 }
